@@ -7,7 +7,7 @@ EXTENDS Closest, Json
 VARIABLE l
 
 TraceRecs == ndJsonDeserialize("trace.ndjson")
-Props == {"C20", "DRIFT"}
+Props == {"C20", "C15", "DRIFT"}
 B(x) == IF x THEN 1 ELSE 0
 
 \* a command is hidden when its Hidden field is set or, declared by struct tag, when its hidden tag carries ANY non-empty text
@@ -15,6 +15,7 @@ B(x) == IF x THEN 1 ELSE 0
 IsHidden(rec, i) == rec.hidden[i] \/ (rec.byTag /\ rec.hiddenTag[i] # E)
 Visible(rec) == LET ix == SelectSeq([i \in 1..Len(rec.names) |-> i], LAMBDA i : ~IsHidden(rec, i)) IN [k \in 1..Len(ix) |-> rec.names[ix[k]]]
 
+IsAlias(rec, w) == "aliases" \in DOMAIN rec /\ \E i \in 1..Len(rec.aliases) : InSeq(rec.aliases[i], w)
 Judge(rec) ==
   LET o == rec.obs
       vis == Visible(rec)
@@ -22,9 +23,10 @@ Judge(rec) ==
       got == [type |-> o.errType, kind |-> o.kind, names |-> o.names]
       good == IF o.panic \/ o.timeout THEN FALSE
               ELSE IF rec.names = <<>> THEN o.errType = "none"
-              ELSE IF rec.hasWord /\ InSeq(rec.names, rec.word) THEN o.errType = "none"     \* the word is a command (hidden ones can be invoked too)
+              ELSE IF rec.hasWord /\ (InSeq(rec.names, rec.word) \/ IsAlias(rec, rec.word)) THEN o.errType = "none"     \* the word is a command or an alias (hidden ones can be invoked too)
               ELSE got \in allowed
   IN [C20 |-> good, DRIFT |-> TRUE,
+      C15 |-> o.panic \/ o.timeout \/ ~("distinct" \in DOMAIN o) \/ o.distinct <= 1,       \* repeated on fresh parsers: one and the same message (ties included)
       suggest |-> B(\E a \in allowed : a.kind = "suggest"), enum |-> B(\E a \in allowed : a.kind = "enum"),
       multibyte |-> B(\E i \in 1..Len(rec.word) : rec.word[i] > 127), hidden |-> B(\E i \in 1..Len(rec.hidden) : IsHidden(rec, i))]
 
